@@ -170,7 +170,7 @@ fn random_case(bytes: &[u8]) -> SetCase {
 
 pub fn run(ctx: &Ctx) {
     ctx.set_rule(
-        "Generated: (1) every ruleset of 0-4 rules drawn from 14 rule kinds (one succeeding, one calling cacheable and non-cacheable \
+        "Generated: (1) every ruleset of 0-4 rules drawn from 15 rule kinds (one succeeding, one calling cacheable and non-cacheable \
          probes and a symbol, and one failing with each error class: type mismatch, division by zero, invalid cast, out of bounds, \
          unknown reference, invalid symbol, unknown function, user-function failure, and four out-of-range results: Int +, dec(2^96), DateTime + Duration, int(f1e300)), i.e. every subset and \
          position of failing rules (exhaustive); (2) random rulesets of 0-8 rules mixing those kinds, call-heavy rules and random \
@@ -209,7 +209,7 @@ pub fn run(ctx: &Ctx) {
         true,
         |i, acc| {
             let kinds = decode(i);
-            let nt = kinds.len() >= 2 && kinds[..kinds.len() - 1].iter().any(|k| (1..=12).contains(k));
+            let nt = kinds.len() >= 2 && kinds[..kinds.len() - 1].iter().any(|k| (1..=13).contains(k));
             acc.cell(&format!("small:{}rules", kinds.len()), nt);
             let case = SetCase { spec: fixed_spec(&kinds), inputs: vec![facts.clone()] };
             if nt && i % 977 == 0 {
